@@ -22,7 +22,8 @@ EXPLANATION = (
     "normalises (high-S signatures of earlier releases) and verifies over the digest given; Channel.public_key_bytes "
     "returns a 33-byte key as is and otherwise goes through the curve library (point validation)."
 )
-TECHNIQUE = "static analysis: def-use binding of signature to loop index and key, operation-sequence comparison of the two serialisers, element-wise piece-list comparison of signer and verifier, required-call ordering in verify"
+EXACTNESS = "Second pass (DESIGN.md §10, exactness / completeness halves) — every p2pkh/p2sh input is signed and only those, key source exactness, unknown script kinds raise, `create` signs by default, what is signed is the stream's bytes, `verify` refuses exactly the wrong lengths and an unparsable signature; Input/Output writers and cache discipline shared from C05 (C04-D5)."
+TECHNIQUE = "static analysis: def-use binding of signature to loop index and key, operation-sequence comparison of the two serialisers, element-wise piece-list comparison of signer and verifier, required-call ordering in verify; exact fact-set comparison of the tests dominating each effect and refusal (effect / refusal tables), fall-through path queries"
 NOT_DECIDED = "that a produced signature verifies under an independent secp256k1 and single-bit sensitivity (properties of libsecp256k1 and SHA-256)"
 ASSUMPTIONS = ["coincurve / libsecp256k1 implement ECDSA over secp256k1; cPublicKey(...) validates that the point is on the curve"]
 
